@@ -31,6 +31,7 @@ func runC16(c *Ctx) {
 	c.rule("Y5", "TransferFiles returns success only where hash(source) equals a recomputed (forced) hash of the destination", 2)
 	c.rule("Y6", "unpackPackageToLocalDestination unzips the verified temporary copy returned by TransferFiles, after it succeeded", 1)
 	c.rule("Y8", "getHash hands back the content of the .hash side file only where its length equals the digest length (or does not ignore the outcome of writing it)", 1)
+	c.rule("Y9", "Fetch installs exactly one version: the destination is emptied unconditionally (a clean without exclusion patterns) before the package is unpacked into it, in both caches", 3)
 	c.rule("Y7", "Fetch/Store report the failure of the work they did: no deferred literal overwrites the error result unconditionally", 4)
 
 	c.c16Typestate()
@@ -38,6 +39,7 @@ func runC16(c *Ctx) {
 	c.c16Transfer()
 	c.c16ErrorKept()
 	c.c16SideFile()
+	c.c16DestinationEmptied()
 }
 
 // c16SideFile (Y8): "a Store that reports success makes its version the one that Fetches return … even if
@@ -942,3 +944,76 @@ func isZeroLoad(v ssa.Value) bool {
 	st, _ := reachingStores(u, a)
 	return len(st) == 0
 }
+
+// c16DestinationEmptied (Y9): "exactly one complete version … never a mixed tree". Unpacking adds and overwrites
+// files; whatever an earlier version left in the destination and the new one does not contain stays unless the
+// destination was emptied first — completely: a clean that spares entries matching some pattern spares them.
+func (c *Ctx) c16DestinationEmptied() {
+	setup := c.fn(scPkg, "(*AbstractSharedCacheRepository).setUpLocalDestination")
+	c.FuncsSeen[fname(setup)] = true
+	di := paramIndexByName(setup, "dest")
+	if di < 0 {
+		c.fatalf("C16/Y9: parameter dest of setUpLocalDestination not found")
+		return
+	}
+	dest := setup.Params[di]
+	isFullClean := func(in ssa.Instruction) (bool, string) {
+		cl, isCall := in.(*ssa.Call)
+		name, args, ok := fsMethodCall(in)
+		if !ok || !isCall {
+			return false, ""
+		}
+		switch name {
+		case "CleanDir", "CleanDirWithContext":
+			return resolveValue(args[len(args)-1]) == ssa.Value(dest), ""
+		case "CleanDirWithContextAndExclusionPatterns":
+			if len(args) >= 2 && resolveValue(args[1]) == ssa.Value(dest) {
+				if len(variadicElems(args[len(args)-1])) == 0 && isNilConst(args[len(args)-1]) {
+					return true, ""
+				}
+				return false, "the destination is cleaned with exclusion patterns (" + s_ipos(c, cl) + "): entries of an earlier version that match a pattern survive the clean"
+			}
+		}
+		return false, ""
+	}
+	why := ""
+	allInstrs(setup, func(in ssa.Instruction) {
+		if _, w := isFullClean(in); w != "" {
+			why = w
+		}
+	})
+	esc := pathPruned(setup, nil, func(i ssa.Instruction) bool { ok, _ := isFullClean(i); return ok }, func(i ssa.Instruction) bool {
+		r, ok := i.(*ssa.Return)
+		return ok && !isErrorExit(setup, r)
+	}, nil)
+	if why == "" {
+		why = "setUpLocalDestination can return successfully without having emptied the destination"
+	}
+	c.check(esc == nil, "Y9", fname(setup)+"/emptied", c.pos(setup.Pos()), "every successful return follows a clean of the destination without exclusion patterns",
+		why+": what an earlier Fetch installed and the new version does not contain stays next to it — a mixed tree, with Fetch reporting success")
+	// both Fetch implementations set the destination up before unpacking into it
+	unpackName := "unpackPackageToLocalDestination"
+	for _, fn := range []string{"(*SharedMutableCacheRepository).Fetch", "(*SharedImmutableCacheRepository).Fetch"} {
+		f := c.fn(scPkg, fn)
+		c.FuncsSeen[fname(f)] = true
+		var su, un *ssa.Call
+		allInstrs(f, func(in ssa.Instruction) {
+			if cl, ok := in.(*ssa.Call); ok {
+				if g := staticCallee(&cl.Call); g == setup {
+					su = cl
+				} else if g != nil && g.Name() == unpackName {
+					un = cl
+				}
+			}
+		})
+		good := su != nil && un != nil && dominates(su, un) && len(errResultsOf(su)) > 0 && onNilSide(errResultsOf(su)[0], un)
+		if good {
+			// same destination
+			good = sameValue(resolveValue(su.Call.Args[len(su.Call.Args)-1]), resolveValue(un.Call.Args[len(un.Call.Args)-1])) || resolveValue(su.Call.Args[len(su.Call.Args)-1]) == resolveValue(un.Call.Args[len(un.Call.Args)-1])
+		}
+		c.check(good, "Y9", fname(f)+"/setup-before-unpack", c.pos(f.Pos()), "the destination is set up (emptied) successfully before the package is unpacked into it",
+			"the package is unpacked into a destination that was not emptied first (setUpLocalDestination missing, after the unpack, its error ignored, or on another path)")
+	}
+}
+
+func s_ipos(c *Ctx, in ssa.Instruction) string { return c.ipos(in) }
